@@ -105,9 +105,12 @@ Ledger0 == [bal |-> [k \in {"Gc", "Gs", "Sc", "Ss", "Fc", "Fs", "Ac", "As"} |-> 
 QuiesceChecks(e) ==
   LET o      == e.cnt
       zero   == o.gc = 0 /\ o.gs = 0 /\ o.sc = 0 /\ o.ss = 0 /\ o.ac = 0 /\ o.as = 0
-      fits   == {m \in modes : \E w \in W[m] : ~w.dead /\ LkMatch(w.lk, o)}
+      \* an EXACT prediction of the counters explains them better than a world that promises nothing (wild): a wild
+      \* world of another mode must not be chosen (arbitrarily, among modes of equal size) over an exact one
+      exact  == {m \in modes : \E w \in W[m] : ~w.dead /\ ~w.lk.wild /\ LkMatch(w.lk, o)}
+      fits   == IF exact # {} THEN exact ELSE {m \in modes : \E w \in W[m] : ~w.dead /\ LkMatch(w.lk, o)}
       m0     == MinMode(fits)
-      w1     == CHOOSE w \in W[m0] : ~w.dead /\ LkMatch(w.lk, o)
+      w1     == CHOOSE w \in W[m0] : ~w.dead /\ LkMatch(w.lk, o) /\ (exact # {} => ~w.lk.wild)
       tags   == w1.lk.sigs \cap C12Findings
       a      == Ledger(e.led, 1, Ledger0)
       negtag == IF "F2-unserved-del" \in present THEN "!F2-unserved-del" ELSE ""
